@@ -4,12 +4,14 @@
    total.  Bounded time is fuel-bounded termination of the mirrors' worklist loops: proved for expand's
    scanner (C17), for move_p (its relocation loop finishes within 2 * entries + 2 iterations in every
    well-formed state) and for remove_all (its depth-first worklist finishes within 2 * entries + 2
-   iterations in every well-formed state, the root included).  PARTIAL: for the traversal (entries) the
-   fuel bound is exercised (a HANG outcome in the transcripts would be a mismatch), not yet proved. *)
+   iterations in every well-formed state, the root included) and for the traversal when links are not
+   followed (at most three machine steps per entry).  PARTIAL: for a traversal that follows links (and
+   copy / chmod / chown when asked to follow) the fuel bound is exercised (a HANG outcome in the
+   transcripts would be a mismatch), not proved. *)
 From stdpp Require Import gmap.
 From Coq Require Import NArith.
 From RV Require Import Base.Str Path.Clean Path.CleanFacts Path.Helpers Path.Expand Path.ExpandFacts
-  Memfs.State Memfs.Ops Memfs.Walk Memfs.WalkFacts Memfs.Step Memfs.Wf Memfs.ContentFacts Memfs.WfMove Memfs.RemoveAll.
+  Memfs.State Memfs.Ops Memfs.Walk Memfs.WalkFacts Memfs.Step Memfs.Wf Memfs.ContentFacts Memfs.WfMove Memfs.RemoveAll Memfs.WalkSpec Memfs.WalkTerm Memfs.WalkExact.
 
 Theorem C12_step_no_panic : forall env m o, step env m o <> Panic.
 Proof. exact step_no_panic. Qed.
@@ -33,6 +35,12 @@ Print Assumptions C12_move_p_terminates.
 Theorem C12_remove_all_terminates : forall env m s, WF m -> remove_all_op env m s <> OutOfFuel.
 Proof. exact remove_all_op_terminates. Qed.
 Print Assumptions C12_remove_all_terminates.
+
+(* entries() without following links never runs out of fuel *)
+Theorem C12_walk_nofollow_terminates : forall m o pre rootp, WF m -> o_follow o = false ->
+  walk (m_ents m) o pre rootp <> inl OutOfFuel.
+Proof. exact walk_nofollow_wf. Qed.
+Print Assumptions C12_walk_nofollow_terminates.
 
 Theorem C12_clean_total : forall s, clean s <> Panic /\ clean s <> OutOfFuel.
 Proof. exact clean_total. Qed.
